@@ -5,6 +5,7 @@ produced late, repeatedly, or never; the theorems hold in EVERY state it can rea
 -/
 import Orda.Proofs.Protocol
 import Orda.Model.Wired
+import Orda.Proofs.ProtocolJoin
 namespace Orda.Props.C07
 open Orda
 
@@ -38,6 +39,55 @@ theorem stale_subscribe_response_ignored (w : WDt) (p : Pack) (he : p.error = fa
     w.applyPack p = (w, [], none) := by
   unfold WDt.applyPack
   simp [he, hs, h1, h2]
+
+/-! ### the ENTRY phase under the same adversary (`JStep`, Proofs/ProtocolJoin.lean): clients that join
+late by a subscribe exchange; every subscribe request ever sent may be served any number of times at any
+later time, every subscribe response may be delivered any number of times at any time -/
+
+/-- never lost, never double-applied, joins included: own acknowledged operations once and in order in the
+    log, foreign operations up to the checkpoint applied exactly once in log order (the prefix received at
+    the join included), nothing of a client that has not joined -/
+theorem no_loss_no_double_with_late_joiners {cuids : List (String × Bool)} {S : JSys} (h : JReach cuids S) :
+    ∀ cl ∈ S.clients,
+      S.log.filter (fun o => o.id.cuid = cl.base.cuid) = cl.base.buf.take (S.recOf cl.base.cuid).cseq ∧
+      cl.base.cp.sseq ≤ S.log.length ∧
+      ((S.log.take cl.base.cp.sseq).filter (fun o => o.id.cuid = cl.base.cuid)).length = cl.base.cp.cseq ∧
+      cl.base.cp.cseq ≤ (S.recOf cl.base.cuid).cseq ∧ (S.recOf cl.base.cuid).cseq ≤ cl.base.buf.length ∧
+      cl.base.applied = (S.log.take cl.base.cp.sseq).filter (fun o => o.id.cuid ≠ cl.base.cuid) ∧
+      (cl.joined = false → cl.base.cp = ⟨0, 0⟩ ∧ cl.base.applied = [] ∧
+        S.log.filter (fun o => o.id.cuid = cl.base.cuid) = []) :=
+  join_inv_client h
+
+theorem log_has_no_duplicates_with_late_joiners {cuids : List (String × Bool)} {S : JSys} (h : JReach cuids S) :
+    S.log.Nodup := join_log_nodup h
+
+/-- a late or duplicated subscribe response delivered to a joined client is a stutter step -/
+theorem stale_subscribe_response_is_stutter {S : JSys} {p : JResp} {cl : JClient}
+    (hi : S.clients[p.i]? = some cl) (hj : cl.joined = true) :
+    ({ S with clients := S.clients.set p.i (cl.deliverSub p) } : JSys) = S :=
+  stale_sub_response_harmless hi hj
+
+/-- a subscribe REQUEST served again after its client joined and pushed: nothing stored, the server's record
+    of that client keeps its sequence number (so later pushes are neither refused nor accepted twice) -/
+theorem duplicate_subscribe_request_keeps_record (st : Store) (cl : ClientDoc) (col : CollectionDoc) (p : Pack) (d : DatatypeDoc)
+    (hs : p.subscribe = true) (hc : p.create = false) (hro : p.readOnly = false)
+    (hk : st.getDatatypeByKey col.num p.key = some d) (ht : d.typ = p.typ) (hv : d.visible = true)
+    (hd : d.duid ≠ p.duid) (hty : cl.typ ≠ 2) (s : SubClient) (hrec : d.sub cl.cuid false = some s) :
+    (processPack st cl col p).pushed = 0 ∧
+    (processPack st cl col p).store.operations = st.operations ∧
+    (processPack st cl col p).resp.subscribe = true ∧ (processPack st cl col p).resp.error = false ∧
+    (processPack st cl col p).resp.cp.cseq = s.cp.cseq ∧
+    ∃ d' ∈ (processPack st cl col p).store.datatypes, d'.duid = d.duid ∧
+      ∃ n, d'.sub cl.cuid false = some ⟨⟨n, s.cp.cseq⟩, cl.typ⟩ :=
+  PJ.resubscribe_keeps_record st cl col p d hs hc hro hk ht hv hd hty s hrec
+
+/-- D33, machine-checked: with the OLD client (a joined datatype is reset by a late subscribe response) a
+    reachable run loses an operation silently -/
+theorem old_client_lost_operations :
+    JReachOld JEx.cs JEx.G5 ∧ JEx.b3.id.seq = JEx.b1.id.seq ∧
+    (∀ cl ∈ JEx.G5.clients, cl.base.cuid = "b" → cl.base.buf.map (·.id) = [JEx.b3.id] ∧
+      cl.base.cp.cseq = cl.base.buf.length ∧ cl.base.cp.sseq = JEx.G5.log.length) ∧
+    (∀ o ∈ JEx.G5.log, o.id ≠ JEx.b3.id) := old_behaviour_loses_operations
 
 /-- non-vacuity: the classic scenario (response lost, another client pushes in between, retry, the lost
     response arrives late, the first request is served again) is reachable -/
